@@ -163,7 +163,8 @@ def gen_gpx(rng, n, tier):
     for _ in range(n):
         k = rng.randint(1, 5)
         out.append({'srid': 'GEO', 'pts': [rand_xyz(rng, 'GEO') for _ in range(k)], 'T': [rand_time(rng) for _ in range(k)], 'ntracks': rng.choice([1, 1, 2]),
-                    'many': rng.random() < 0.3})          # one file per track (oneFile=False) into a directory
+                    'many': rng.random() < 0.3,           # one file per track (oneFile=False) into a directory
+                    'af': rng.random() < 0.25})
     return out
 
 
@@ -174,14 +175,18 @@ def run_gpx(case):
     trs = [mk_track(case) for _ in range(case['ntracks'])]
     for i, t in enumerate(trs):
         t.tid = 'k%d' % i
+        if case.get('af'):                        # analytical features exported in the <extensions> block of each point, under names close to the GPX tags
+            t.createAnalyticalFeature('elevation', [1000.5 + k for k in range(t.size())])
+            t.createAnalyticalFeature('timer', [7.25] * t.size())
+            t.createAnalyticalFeature('speed', [3.5] * t.size())
     fmt0 = (ObsTime.getPrintFormat(), ObsTime.getReadFormat())
     if case.get('many'):
         d = os.path.join(scratch(), 'many'); shutil.rmtree(d, ignore_errors=True); os.makedirs(d)
-        TrackWriter.writeToGpx(TrackCollection(trs), d, oneFile=False)
+        TrackWriter.writeToGpx(TrackCollection(trs), d, af=bool(case.get('af')), oneFile=False)
         paths = [os.path.join(d, 'k%d.gpx' % i) for i in range(len(trs))]
     else:
         path = os.path.join(scratch(), 'w.gpx')
-        TrackWriter.writeToGpx(TrackCollection(trs), path)
+        TrackWriter.writeToGpx(TrackCollection(trs), path, af=bool(case.get('af')))
         paths = [path]
     fmt1 = (ObsTime.getPrintFormat(), ObsTime.getReadFormat())
     text = None if case.get('many') else open(paths[0]).read()
@@ -206,8 +211,8 @@ def run_gpx(case):
 
 
 def coq_gpx(case, obs):
-    if 'exc' in obs or obs.get('text') is None:
-        return None                               # one file per track: oracle only
+    if 'exc' in obs or obs.get('text') is None or case.get('af'):
+        return None                               # one file per track, or the extensions block: oracle only
     lines = obs['text'].split('\n')
     if '    <trk>' not in lines:
         return None
